@@ -366,7 +366,7 @@ def run(ctx, which):
                 "every xref table compared with the model. distinct non-trivial = distinct (#sites, #targets, external?, array?) per method/field/string/class")
     ctx.assumptions = ["const-class / new-instance on the method's own class and const-class on [LFoo; (recorded by androguard on LFoo;) are don't-care",
                        "vf/model/dexw.py + vf/gen/refprog.py site offsets"]
-    n = 480 if ctx.quick else 12000
+    n = 480 if ctx.quick else 40000
     ctx.run_shards(MOD, "shard", [[which, i, n // 16 + 1] for i in range(16)], timeout=3000)
     ctx.require_counter("analyses", 100)
     ctx.min_distinct = 8
